@@ -9,7 +9,7 @@ import math
 from .model import load_model, Model
 from .harness import build, run_paths, exc_name, exc_origin
 from .interp import Unsupported, InterpRaise
-from .derivengine import obj_to_tree, _strip_sym, value_term_ext, has_sym_const
+from .derivengine import obj_to_tree, obj_ids, _strip_sym, value_term_ext, has_sym_const
 from .values import Obj
 from .regions import IV
 from . import spec
@@ -158,7 +158,7 @@ def reduce_trace(args):
     def thunk(it):
         it.call_log = []
         e = build(it, tree, {})
-        seq = [("input", obj_to_tree(it, e), it.to_repr(e))]
+        seq = [("input", obj_to_tree(it, e), it.to_repr(e), obj_ids(it, e))]
         cur = e
         steps = 0
         while True:
@@ -166,9 +166,10 @@ def reduce_trace(args):
             if it.truth(flag):
                 break
             if steps >= max_steps:
-                seq.append(("<step budget of the analysis exhausted>", None, None))
+                seq.append(("<step budget of the analysis exhausted>", None, None, None))
                 return seq, None
             mark = len(it.call_log)
+            before_ids = obj_ids(it, cur)
             nxt = it.call(it.getattr(cur, "_take_reduction_step"), [], {})
             who = "driver"
             for (q, _recv) in it.call_log[mark:]:
@@ -178,11 +179,11 @@ def reduce_trace(args):
             # the reducer that fired is the last one called before the step returned a new node
             t = obj_to_tree(it, nxt)
             if t != seq[-1][1]:
-                seq.append((who, t, it.to_repr(nxt)))
+                seq.append((who, t, it.to_repr(nxt), obj_ids(it, nxt), before_ids))
             steps += 1
             cur = nxt
         final = it.call(it.getattr(cur, "_normalize_fully_reduced"), [], {})
-        seq.append(("normal-form pass", obj_to_tree(it, final), it.to_repr(final)))
+        seq.append(("normal-form pass", obj_to_tree(it, final), it.to_repr(final), obj_ids(it, final)))
         # end-to-end through the public pipeline on a fresh copy
         e2 = build(it, tree, {})
         n2 = it.call(it.getattr(e2, "_normalize"), [], {})
@@ -293,3 +294,78 @@ def applicable_rules(args):
     if o["kind"] == "raise":
         return {"kind": "raise", "exc": exc_name(o["exc"])}
     return {"kind": "unsupported", "msg": o["msg"]}
+
+
+def random_trees(seed: int, count: int, max_size: int, names=("x", "y", "z")):
+    """Random expression trees over all 15 constructors (thorough tiers): nested combinations that
+    enable several rules at once, with few distinct variables so that sign regions stay enumerable."""
+    import random
+    rng = random.Random(seed * 1000003 + 17)
+    consts = (0, 1, -1, 2, 2.0, 0.5, -2, 3, E)
+
+    def gen(budget):
+        if budget <= 1 or rng.random() < 0.18:
+            if rng.random() < 0.7:
+                return ("Variable", rng.choice(names))
+            return ("Constant", rng.choice(consts))
+        k = rng.choice(("Add", "Add", "Multiply", "Multiply", "Minus", "Divide", "Power", "Negation", "Negation",
+                        "Reciprocal", "Reciprocal", "Sine", "Cosine", "NthPower", "NthPower", "NthRoot", "NthRoot",
+                        "Exponential", "Logarithm"))
+        if k in spec.NARY:
+            ar = rng.choice((0, 1, 2, 2, 3, 3, 4))
+            share = budget - 1
+            kids = []
+            for i in range(ar):
+                b = max(1, share // max(1, ar - i)) if i == ar - 1 else rng.randint(1, max(1, share // max(1, ar - i) * 2 // 1))
+                b = min(b, share)
+                kids.append(gen(b))
+                share = max(1, share - b)
+            return (k, kids)
+        if k in spec.BINARY:
+            b1 = rng.randint(1, max(1, budget - 2))
+            return (k, gen(b1), gen(max(1, budget - 1 - b1)))
+        if k in spec.UNARY:
+            return (k, gen(budget - 1))
+        if k in ("NthPower", "NthRoot"):
+            return (k, gen(budget - 1), rng.choice((1, 2, 2, 3, 3, 4, 5, 6)))
+        return (k, gen(budget - 1), rng.choice((2, E, 0.5, 3.0) + ((1,) if k == "Exponential" else ())))
+
+    out = []
+    for i in range(count):
+        t = gen(rng.randint(4, max_size))
+        out.append((t, f"random(size<={max_size})"))
+    return out
+
+
+def deep_pattern_sites(model: Model):
+    """Reducers that inspect the *class* of something deeper than a direct child: their patterns are
+    deeper than the enumerated rule inputs (children of children are plain variables)."""
+    from .cfg import attr_chain
+    out = []
+    for ci in model.concrete_expression_classes():
+        for c in model.mro(ci):
+            for fi in c.methods.values():
+                if not fi.name.startswith("_reduce") or fi.is_property:
+                    continue
+                sn = fi.params[0] if fi.params else "self"
+                aliases = {}
+                for node in ast.walk(fi.node):
+                    if isinstance(node, ast.Assign) and len(node.targets) == 1 and isinstance(node.targets[0], ast.Name):
+                        ch = attr_chain(node.value)
+                        if ch and ch[0] == sn:
+                            aliases[node.targets[0].id] = ch
+                for node in ast.walk(fi.node):
+                    if isinstance(node, ast.Call) and isinstance(node.func, ast.Name) and node.func.id in ("isinstance", "type") \
+                            and node.args:
+                        ch = attr_chain(node.args[0])
+                        if ch and ch[0] in aliases:
+                            ch = aliases[ch[0]] + ch[1:]
+                        if ch and ch[0] == sn and len(ch) >= 3:
+                            out.append((fi, node.lineno, ".".join(ch)))
+    seen = set()
+    uniq = []
+    for fi, ln, path in out:
+        if (fi.qualname, ln) not in seen:
+            seen.add((fi.qualname, ln))
+            uniq.append((fi, ln, path))
+    return uniq
